@@ -20,7 +20,14 @@ class Builder:
     Task object whose body has its own code object (so Task.__eq__ is identity
     on ids) and reports to [self.on_call]."""
 
-    def __init__(self, on_call=None, task_kwargs=None, sigs=None):
+    def __init__(self, on_call=None, task_kwargs=None, sigs=None, build_seed=None):
+        """build_seed: None = children are completed before they are attached and nothing is queried
+        while building; an int = pseudo-randomly attach (non-module) sub-collections *before*
+        populating them and query the half-built collections (task_names, truth value, lookups) in
+        between -- the built tree must not depend on either"""
+        import random as _random
+        self.order = None if build_seed is None else _random.Random(build_seed)
+        self.built = []
         self.tasks = {}
         self.on_call = on_call or (lambda tid, ctx, args, kwargs: None)
         self.task_kwargs = task_kwargs or {}   # id -> extra Task kwargs (pre/post...)
@@ -58,13 +65,29 @@ class Builder:
         mod.ns = self.coll(spec["ns"])
         return mod
 
-    def coll(self, spec):
+    def probe(self):
+        """read-only queries on every collection created so far"""
+        if self.order is None or self.order.random() < 0.4:
+            return
+        for c in self.built:
+            try:
+                c.task_names
+                bool(c)
+                "no-such-name" in c
+            except Exception:  # noqa: half-built trees may refuse lookups
+                pass
+
+    def coll(self, spec, attach=None):
         from invoke import Collection
         if "module" in spec:   # the root itself is a re-imported module
             return Collection.from_module(self.module(spec), auto_dash_names=spec.get("ad"))
         args = [spec["name"]] if spec.get("name") is not None else []
         c = Collection(*args, auto_dash_names=spec.get("auto_dash", True))
         c.__doc__ = "COLL"
+        self.built.append(c)
+        if attach is not None:
+            attach(c)
+            self.probe()
         for it in spec.get("items", []):
             if "task" in it:
                 kw = {}
@@ -76,16 +99,23 @@ class Builder:
                     kw["default"] = it["default"]
                 c.add_task(self.task(it["task"]), **kw)
             else:
-                if "module" in it["coll"] and it["coll"].get("ad") is None:
-                    sub = self.module(it["coll"])      # add_collection(module) -> from_module(module)
-                else:
-                    sub = self.coll(it["coll"])
                 kw = {}
                 if it.get("bind") is not None:
                     kw["name"] = it["bind"]
                 if it.get("default"):
                     kw["default"] = True
-                c.add_collection(sub, **kw)
+                if "module" in it["coll"]:
+                    if it["coll"].get("ad") is None:
+                        sub = self.module(it["coll"])      # add_collection(module) -> from_module(module)
+                    else:
+                        sub = self.coll(it["coll"])
+                    c.add_collection(sub, **kw)
+                elif self.order is not None and self.order.random() < 0.6:
+                    # attach the still empty sub-collection first, populate it afterwards
+                    self.coll(it["coll"], attach=lambda sc, kw=kw: c.add_collection(sc, **kw))
+                else:
+                    c.add_collection(self.coll(it["coll"]), **kw)
+            self.probe()
         c.configure(gt.unjson(spec.get("config", {})))
         return c
 
